@@ -6,5 +6,6 @@ CONSTANTS
   Focus = "startup"
 INVARIANT GenInv
 INVARIANT TxnLockAgree
+INVARIANT NoStaleSideFile
 INVARIANT DoneMeansCommitted
 CHECK_DEADLOCK FALSE
